@@ -21,7 +21,7 @@ func strictVals(fn *ssa.Function) []ssa.Value {
 	// loads of fields / params / globals whose name is a strict-mode name
 	var out []ssa.Value
 	for _, prm := range fn.Params {
-		if reStrict.MatchString(prm.Name()) {
+		if reStrict.MatchString(prm.Name()) || reStrict.MatchString(BaselineParamName(prm)) {
 			out = append(out, prm)
 		}
 	}
@@ -42,7 +42,7 @@ func strictVals(fn *ssa.Function) []ssa.Value {
 						out = append(out, x)
 					}
 				case *ssa.Alloc:
-					if reStrict.MatchString(a.Comment) {
+					if reStrict.MatchString(a.Comment) || reStrict.MatchString(BaselineVarName(a.Comment, a.Parent())) {
 						out = append(out, x)
 					}
 				}
@@ -89,8 +89,6 @@ func c20(r *Report) {
 
 	// --- outbound HTTP
 	do := p.Func("http/client", "StrictHTTPClient", "Do")
-	r.Refuse(Refuse{ID: "C20.httpclient.non-https-refused", Fn: do, Cond: CmpCheck("req.URL.Scheme != \"https\"", token.EQL, FieldV("URL", "Scheme"), StrV("https"), false),
-		Effect: CallEffect(Fn("std:net/http", "Client", "Do")), Assume: nil})
 	r.Gate(Gate{ID: "C20.httpclient.request-only-if-https-or-not-strict", Fn: do, Effect: CallEffect(Fn("std:net/http", "Client", "Do")),
 		Check: CmpCheck("req.URL.Scheme == \"https\"", token.EQL, FieldV("URL", "Scheme"), StrV("https"), true), Alt: []Check{Check{Desc: "strict mode off", Pass: IsFalse, Values: strictVals}}})
 	c20ClientFlagSet(r)
@@ -562,6 +560,14 @@ func c20Secrets(r *Report) {
 		return
 	}
 	visits := Calls(fn, Fn("github.com/spf13/pflag", "FlagSet", "VisitAll"))
+	loadFn := fn
+	if len(visits) == 0 {
+		// the scan may live in a helper of the same package whose error gates the load
+		if near := p.CallsNear(fn, Fn("github.com/spf13/pflag", "FlagSet", "VisitAll")); len(near) == 1 {
+			visits = near
+			fn = near[0].Parent()
+		}
+	}
 	r.Sites += len(visits)
 	if len(visits) != 1 {
 		r.Bad(key, rule, p.Pos(fn.Pos()), "flags.VisitAll is not used: Visit only sees changed flags in lexical order and a custom loop may stop early")
@@ -579,7 +585,7 @@ func c20Secrets(r *Report) {
 			if !ok {
 				continue
 			}
-			if fv, ok := st.Addr.(*ssa.FreeVar); ok && fv.Name() == "err" {
+			if fv, ok := st.Addr.(*ssa.FreeVar); ok && fv.Type().String() == "*error" {
 				n++
 				if !valueNonNilErr(p, st.Val) {
 					r.Bad(key, rule, p.Pos(st.Pos()), "the visitor assigns a possibly-nil value to err: a later (non-secret) flag can erase the refusal")
@@ -603,14 +609,20 @@ func c20Secrets(r *Report) {
 		return
 	}
 	r.OK(key, rule, p.Pos(cl.Pos()), fmt.Sprintf("%d sticky error store(s); suffixes token,password", n), true)
-	r.Gate(Gate{ID: "C20.secrets.error-gates-load", Fn: fn, Effect: CallEffect(Fn("github.com/knadh/koanf/v2", "Koanf", "Load")), Check: Check{Desc: "err == nil after the visit", Pass: ErrNil, Values: CapturedLoads("err")}})
+	if loadFn == fn {
+		r.Gate(Gate{ID: "C20.secrets.error-gates-load", Fn: fn, Effect: CallEffect(Fn("github.com/knadh/koanf/v2", "Koanf", "Load")), Check: Check{Desc: "err == nil after the visit", Pass: ErrNil, Values: CellLoadsStoredIn(cl, "error")}})
+	} else {
+		// helper form: the helper succeeds only if the sticky error is nil, and its error gates the load
+		r.Gate(Gate{ID: "C20.secrets.error-gates-load", Fn: loadFn, Effect: CallEffect(Fn("github.com/knadh/koanf/v2", "Koanf", "Load")), Check: ErrCheck(SSAFn(fn, p.FuncName(fn)))})
+		r.Gate(Gate{ID: "C20.secrets.helper-returns-the-sticky-error", Fn: fn, Effect: SuccessReturn(), Check: Check{Desc: "err == nil after the visit", Pass: ErrNil, Values: CellLoadsStoredIn(cl, "error")}})
+	}
 	r.Gate(Gate{ID: "C20.secrets.only-changed-flags", Fn: cl, Effect: InstrEffect("err = …", func(in ssa.Instruction) bool {
 		st, ok := in.(*ssa.Store)
 		if !ok {
 			return false
 		}
 		fv, ok := st.Addr.(*ssa.FreeVar)
-		return ok && fv.Name() == "err"
+		return ok && fv.Type().String() == "*error"
 	}), Check: Check{Desc: "flag.Changed", Pass: IsTrue, Values: fieldLoads("Flag", "Changed")}})
 }
 
